@@ -22,6 +22,7 @@ func checkC11(c *Ctx) {
 	c.Rule("C11/R3", "closed forms (identity over the rationals, per alternative and branch): U1 = R1 - n1(n1+1)/2; the exact tails CDF(U1), 1-CDF(U1-1), 2·CDF(min(U1,U2)) or 1 at the centre; mu = n1n2/2; sigma^2 = n1n2((N+1) - t/(N(N-1)))/12; continuity correction ∓1/2 by alternative; the three normal tails; the tie term is the sum of t^3 - t; a tied group's rank is the mean of its first and last rank")
 	c.Rule("C11/R4", "the exact method is used exactly when both sizes are within the limit that applies (the tie limit when ties were seen, the plain limit otherwise); ties are flagged whenever a rank group has more than one member, in either sample, and the tie vector always reaches the exact distribution")
 	c.Rule("C11/R5", "every p-value the test can return lies in [0,1] by construction (interval evaluation with CDF values in [0,1] and min(x,1-x) <= 1/2)")
+	c.Rule("C11/R7", "exact distribution code: every integer quotient in the tie-aware counting code has a dividend tested non-negative (truncating division is the floor only then); the untied mass function reads p(k)[k] for k = floor(U) or its mirror image n1n2 - floor(U)")
 	c.Rule("C11/R6", "the legacy wrappers return every test error (converted) with p = -1 and the test's own P otherwise")
 
 	p := mustLoad(c, loadOpts{}, "./internal/stats", "./benchstat")
@@ -36,6 +37,7 @@ func checkC11(c *Ctx) {
 	c11Forms(c, p, fn)
 	c11Ties(c, p, fn)
 	c11Wrappers(c, p)
+	c11Dist(c, p)
 }
 
 func c11Guards(c *Ctx, p *Prog, fn *ssa.Function) {
@@ -330,7 +332,17 @@ func c11Forms(c *Ctx, p *Prog, fn *ssa.Function) {
 				branch = "approx"
 			}
 			_ = exact
+			// were ties seen on this path? (the flag the ranking loop sets; "?" when the path does not test it)
+			ties := "?"
+			for k, v := range o.Assign {
+				if s := o.AtomSyms[k]; strings.Contains(s.String(), "hasTies") && s.Op != "binop" {
+					ties = fmt.Sprint(v)
+				}
+			}
 			key := fmt.Sprintf("forms[%s %s centre=%v]", altName, branch, centre)
+			if branch == "exact" {
+				key = fmt.Sprintf("forms[%s %s ties=%s centre=%v]", altName, branch, ties, centre)
+			}
 			nCases++
 			u1 := func(g func(string) *big.Rat) *big.Rat {
 				return rSub(g("R1"), rQuo(rMul(g("n1"), rAdd(g("n1"), rat(1, 1))), rat(2, 1)))
@@ -339,19 +351,53 @@ func c11Forms(c *Ctx, p *Prog, fn *ssa.Function) {
 			// U statistic
 			okU, dU := c11Eq(uS, u1, pts, leaf2)
 			c.Check(okU, R, key+":U", site, "U = R1 - n1(n1+1)/2", "U statistic: "+dU)
-			var ref func(g func(string) *big.Rat) *big.Rat
+			var ref, symmetric func(g func(string) *big.Rat) *big.Rat
+			var refs []func(g func(string) *big.Rat) *big.Rat
 			if branch == "exact" {
 				dist := "exact"
 				switch altName {
 				case "LocationLess":
 					ref = func(g func(string) *big.Rat) *big.Rat { return cdf(dist, u1(g)) }
-				case "LocationGreater":
-					ref = func(g func(string) *big.Rat) *big.Rat { return rSub(rat(1, 1), cdf(dist, rSub(u1(g), rat(1, 1)))) }
-				case "LocationDiffers":
-					if centre {
-						ref = func(g func(string) *big.Rat) *big.Rat { return rat(1, 1) }
-					} else {
-						ref = func(g func(string) *big.Rat) *big.Rat {
+				case "LocationGreater", "LocationDiffers":
+					// P(U >= U1) = 1 - CDF(U1 - step): U moves in whole steps without ties and half steps with ties
+					var steps []*big.Rat
+					switch ties {
+					case "false":
+						steps = []*big.Rat{rat(1, 1)}
+					case "true":
+						steps = []*big.Rat{rat(1, 2)}
+					default:
+						steps = []*big.Rat{rat(1, 1), rat(1, 2)} // one expression for both cases must be right in both
+					}
+					greater := func(step *big.Rat) func(g func(string) *big.Rat) *big.Rat {
+						return func(g func(string) *big.Rat) *big.Rat { return rSub(rat(1, 1), cdf(dist, rSub(u1(g), step))) }
+					}
+					for _, st := range steps {
+						st := st
+						if altName == "LocationGreater" {
+							refs = append(refs, greater(st))
+							continue
+						}
+						// twice the smaller tail, capped at 1
+						refs = append(refs, func(g func(string) *big.Rat) *big.Rat {
+							a, b := cdf(dist, u1(g)), greater(st)(g)
+							if b.Cmp(a) < 0 {
+								a = b
+							}
+							v := rMul(rat(2, 1), a)
+							if v.Cmp(rat(1, 1)) > 0 {
+								return rat(1, 1)
+							}
+							return v
+						})
+					}
+					if altName == "LocationDiffers" {
+						// Without ties the distribution of U is symmetric about n1n2/2, so P(U >= U1) = CDF(U2) and twice
+						// the smaller tail is 2 CDF(min(U1,U2)), which is 1 at the centre: an accepted form only there.
+						symmetric = func(g func(string) *big.Rat) *big.Rat {
+							if centre {
+								return rat(1, 1)
+							}
 							a, b := u1(g), u2(g)
 							m := a
 							if b.Cmp(a) < 0 {
@@ -396,8 +442,32 @@ func c11Forms(c *Ctx, p *Prog, fn *ssa.Function) {
 					return rMul(rat(2, 1), a)
 				}
 			}
-			okP, dP := c11Eq(pS, ref, pts, leaf2)
-			c.Check(okP, R, key+":P", site, "p-value formula matches the documented closed form", "p-value: "+dP)
+			if ref != nil {
+				refs = append(refs, ref)
+			}
+			okP, dP := len(refs) > 0, ""
+			for _, r := range refs {
+				ok1, d1 := c11Eq(pS, r, pts, leaf2)
+				if !ok1 {
+					okP, dP = false, d1
+					break
+				}
+			}
+			switch {
+			case okP:
+				c.OK(R, key+":P", site, "p-value formula matches the documented closed form")
+			case symmetric != nil && ties == "false":
+				okS, dS := c11Eq(pS, symmetric, pts, leaf2)
+				c.Check(okS, R, key+":P", site, "untied two-sided p: 2 CDF(min(U1,U2)) capped at 1 (equal to twice the smaller tail by the symmetry of the untied distribution)", "p-value: "+dS)
+			case symmetric != nil:
+				if okS, _ := c11Eq(pS, symmetric, pts, leaf2); okS {
+					c.Bad(R, key+":P:symmetric-form-under-ties", site, "the two-sided exact p-value is computed as 2 CDF(min(U1,U2)) also when ties were seen; the tied distribution is not symmetric, so this is not twice the smaller one-sided value and changes when the samples are swapped (e.g. {1,2,2,3} vs {2,3,3,4,5}: 0.159 one way, 0.063 the other)")
+				} else {
+					c.Bad(R, key+":P", site, "p-value: "+dP)
+				}
+			default:
+				c.Bad(R, key+":P", site, "p-value: "+dP)
+			}
 			lo, hi, known := symInterval(pS)
 			if !known {
 				c.Undecided("C11/R5", key+":range", site, "cannot bound the p-value expression "+truncate(pS.String(), 160))
@@ -866,4 +936,47 @@ func symInterval(s *Sym) (lo, hi *big.Rat, ok bool) {
 		}
 	}
 	return nil, nil, false
+}
+
+// c11Dist checks the exact distribution's counting code (C11/R7).
+func c11Dist(c *Ctx, p *Prog) {
+	const R = "C11/R7"
+	// (a) integer quotients: Go's integer division truncates toward zero, so a quotient used as an upper bound is the
+	// floor only for a non-negative dividend; every integer division in the memo-table code must have its dividend
+	// proven non-negative by a dominating comparison (or be a division of two lengths/constants).
+	nDiv := 0
+	for _, name := range []string{"makeUmemo", "twoUmin", "twoUmax"} {
+		fn := p.Fn("internal/stats", name)
+		if fn == nil {
+			c.Undecided(R, "anchor:"+name, "", "function not found")
+			continue
+		}
+		eachInstr(fn, func(b *ssa.BasicBlock, in ssa.Instruction) {
+			bo, ok := in.(*ssa.BinOp)
+			if !ok || bo.Op != token.QUO || !isInteger(bo.Type()) {
+				return
+			}
+			nDiv++
+			site := p.pos(bo.Pos())
+			guarded := false
+			for _, f := range factsAt(b) {
+				cmp, ok := f.Cond.(*ssa.BinOp)
+				if !ok {
+					continue
+				}
+				zeroR := func(v ssa.Value) bool { k, ok := constInt(v); return ok && k == 0 }
+				switch {
+				case cmp.Op == token.LSS && sameValue(cmp.X, bo.X) && zeroR(cmp.Y) && !f.True, // !(x < 0)
+					cmp.Op == token.GEQ && sameValue(cmp.X, bo.X) && zeroR(cmp.Y) && f.True, // x >= 0
+					cmp.Op == token.LEQ && zeroR(cmp.X) && sameValue(cmp.Y, bo.X) && f.True, // 0 <= x
+					cmp.Op == token.GTR && zeroR(cmp.X) && sameValue(cmp.Y, bo.X) && !f.True: // !(0 > x)
+					guarded = true
+				}
+			}
+			c.Check(guarded, R, fmt.Sprintf("quotient:%s#%d", name, nDiv), site,
+				"the dividend is tested non-negative on every path to the division",
+				"integer division of a dividend that can be negative: Go truncates toward zero, so for a U below the smallest attainable value the bound becomes 0 instead of -1 and assignments are counted below the support (CDF positive below the minimum)")
+		})
+	}
+	c.Floor(R, "integer divisions in the tie-aware counting code", nDiv, 1)
 }
